@@ -1,7 +1,7 @@
 (* sx glue for Model/World.v: decode ops and queries, run a history, one reply per item. *)
 From Coq Require Import ZArith List Bool.
 From V Require Import Result LazyTree World Aggregates.
-From V Require IndexCheck.
+From V Require IndexCheck SeqOps DelExt.
 Import ListNotations.
 Open Scope Z_scope.
 
@@ -154,6 +154,20 @@ Definition run_item (w : world) (it : sx) : world * sx :=
     (* the harness replaced its world by a copy of itself (copy.deepcopy / a pickle round trip of every object): a copy of a state
        is that state *)
     (w, L [A 0])
+  | L [A 33; A ir; a; b; A c] =>
+    (* del ir.modules[a:b:c] with any step (Model/DelExt.v; theorems C16_modlist_delslice_extended and following) *)
+    match DelExt.ml_delext w ir (un_opt a) (un_opt b) c with Ok w' => (w', L [A 0]) | Err e => (w, sx_err e) end
+  | L (A 53 :: _) =>
+    (* an attribute assignment that THIS implementation refused with an exception when the history was generated (a magnitude it does
+       not take): a refused call changes nothing *)
+    (w, L [A 0])
+  | L [A 51; A n; A k; A u; a; A sz; A off; A nm; p; A pa] =>
+    (* a node constructed WITH its parent (Section(module=m), CodeBlock(byte_interval=bi), ...): `new`, then the attach through the
+       parent attribute; when the attach is refused the constructor raises and the caller holds no object *)
+    match IndexCheck.step_checked w (ONew n (kind_of_z k) u (un_opt a) sz off nm (pay_of_sx p)) with
+    | Ok w1 => match IndexCheck.step_checked w1 (OSetParent n (Some pa)) with Ok w' => (w', L [A 0]) | Err e => (w1, sx_err e) end
+    | Err e => (w, sx_err e)
+    end
   | L [A 29; A bi; A v] =>
     (* bi.initialized_size = v: the stored bytes are ByteStore.v's concern; for the object graph the assignment is a size
        assignment through the indexed attribute when v exceeds the size (ByteStore.set_init), and nothing otherwise *)
